@@ -846,7 +846,10 @@ impl Value {
                 rev.reverse();
                 Ok(Self::from(rev))
             }
-            ValueInner::Bytes(v) => Ok(Self::from(v.iter().rev().copied().collect::<Vec<_>>())),
+            ValueInner::Bytes(v) => {
+                let rev: Vec<u8> = v.iter().rev().copied().collect();
+                Ok(Self::from(rev.as_slice()))
+            }
             ValueInner::String(v) => {
                 #[cfg(feature = "unicode")]
                 let reversed: String = v.as_str().graphemes(true).rev().collect();
